@@ -19,13 +19,23 @@ import sys
 VERIF = os.path.dirname(os.path.dirname(os.path.abspath(__file__)))
 
 
-def sh(cmd, cwd=None, timeout=3600):
+def sh(cmd, cwd=None, timeout=3600, env=None):
+    """run a shell command in its own process group; on timeout the whole group is killed (no orphans)"""
+    import signal
+    if 'demo_' in cmd:
+        cmd = 'ulimit -v 8000000; ' + cmd
+    p = subprocess.Popen(cmd, shell=True, cwd=cwd, stdout=subprocess.PIPE, stderr=subprocess.STDOUT, text=True,
+                         env=env, start_new_session=True)
     try:
-        p = subprocess.run('ulimit -v 8000000; ' + cmd if 'demo_' in cmd else cmd, shell=True, cwd=cwd,
-                           capture_output=True, text=True, timeout=300 if 'demo_' in cmd else timeout)
+        out, _ = p.communicate(timeout=300 if 'demo_' in cmd else timeout)
+        return p.returncode, out
     except subprocess.TimeoutExpired:
+        try:
+            os.killpg(p.pid, signal.SIGKILL)
+        except ProcessLookupError:
+            pass
+        p.wait()
         return 124, 'TIMEOUT'
-    return p.returncode, p.stdout + p.stderr
 
 
 def main():
